@@ -384,6 +384,10 @@ func (w *World) checkNumericBuiltins(P string, f *Facts, r *Roles) {
 			if _, isNum := isMethodCall(stripConvAll(other), "Number"); isNum {
 				okAcc = true
 				accDetail = "float64 accumulator adds Number() of each node"
+			} else if c, isCall := stripConvAll(other).(*ssa.Call); isCall && w.isStringToNumber(staticCallee(c)) && len(c.Call.Args) == 1 && isStringValueOfElem(c.Call.Args[0], w) {
+				// the same two steps NodeSet.Number() takes, spelled out: number(string-value(node))
+				okAcc = true
+				accDetail = "float64 accumulator adds the number of each node's string-value (the conversion NodeSet.Number() uses)"
 			} else {
 				accDetail = "the added term is not Number() of a node"
 			}
@@ -499,4 +503,40 @@ func (w *World) checkRound(P string, fn *ssa.Function) {
 	}
 	w.check(P, "R06.6", "round: NaN and infinities pass through", fn.Pos(), passThrough, fmt.Sprintf("the rounding helper returns its argument unchanged under an IsNaN/IsInf guard: %v", passThrough))
 	w.check(P, "R06.6", "round: a recognised rounding idiom is used", fn.Pos(), idioms > 0, fmt.Sprintf("%d instances of floor(x+0.5) / fraction tie tests found", idioms))
+}
+
+// isStringToNumber: fn is the package's string-to-number conversion, identified by role: the function of one string
+// parameter and one float64 result that NodeSet.Number() and String.Number() apply.
+func (w *World) isStringToNumber(fn *ssa.Function) bool {
+	if fn == nil || fnPkgKey(fn) != "exec" || len(fn.Params) != 1 || !isStringType(fn.Params[0].Type()) || fn.Signature.Results().Len() != 1 {
+		return false
+	}
+	if b, ok := fn.Signature.Results().At(0).Type().Underlying().(*types.Basic); !ok || b.Kind() != types.Float64 {
+		return false
+	}
+	used := 0
+	for _, tn := range []string{"NodeSet", "String"} {
+		if m := w.method("exec", tn, "Number"); m != nil {
+			allInstrs(m, func(in ssa.Instruction) {
+				if c, ok := in.(*ssa.Call); ok && staticCallee(c) == fn {
+					used++
+				}
+			})
+		}
+	}
+	return used >= 2
+}
+
+// isStringValueOfElem: v is exec.GetCursorString applied to an element of a node-set.
+func isStringValueOfElem(v ssa.Value, w *World) bool {
+	c, ok := v.(*ssa.Call)
+	if !ok || staticCallee(c) != w.member("exec", "GetCursorString") || len(c.Call.Args) != 1 {
+		return false
+	}
+	ld, ok := c.Call.Args[0].(*ssa.UnOp)
+	if !ok {
+		return false
+	}
+	_, ok = ld.X.(*ssa.IndexAddr)
+	return ok
 }
